@@ -45,7 +45,11 @@ def main():
         mod = importlib.import_module('contracts.' + os.path.basename(f)[:-3])
         rc, out = run_check(tid, jobs=args.jobs)
         got = set(re.findall(r'^  obligation: (.*)$', out, re.M))
-        ok = not (got != set(mod.EXPECTED_REFUTED) or 'UNDECIDED' in out or 'CHECKER-ERROR' in out)
+        undecided = [l for l in out.splitlines() if l.startswith('UNDECIDED')]
+        want_undecided = list(getattr(mod, 'EXPECTED_UNDECIDED', []))
+        ok = not (got != set(mod.EXPECTED_REFUTED) or 'CHECKER-ERROR' in out
+                  or any(not any(w in l for w in want_undecided) for l in undecided)
+                  or any(not any(w in l for l in undecided) for w in want_undecided))
         if not ok:
             failures.append((tid, 'expected refutations %r, got %r\n%s' % (sorted(mod.EXPECTED_REFUTED),
                                                                            sorted(got), out[-1500:])))
